@@ -329,6 +329,8 @@ int reformat_settings_msa(struct msa *msa, int rename, int unalign)
         }
         if(rename){
                 for (int i = 0 ;i < msa->numseq;i++){
+                        /* the readers size the name buffer to the name they read */
+                        MREALLOC(msa->sequences[i]->name, sizeof(char) * 128);
                         snprintf(msa->sequences[i]->name, 128, "SEQ%d", i+1);
                 }
         }
